@@ -30,7 +30,7 @@ PROBES = ["csscombine_path", "import_with_media_wrapped", "import_kept_unavailab
 
 HOST = "http://h"
 DIRS = ["/css/", "/css/sub/", "/css/sub/deep/", "/other/", "/"]
-URL_FORMS = ["img/{n}.png", "{n}.png", "../{n}.png", "../img/{n}.gif", "/abs/{n}.png", "http://cdn.example/{n}.png", "//cdn.example/{n}.png", "{n}.png?v=1", "i/{n}.svg#frag", "{n}.png?a=b&c=d#top", "./{n}.png", "../../up/{n}.png"]
+URL_FORMS = ["img/{n}.png", "{n}.png", "../{n}.png", "../img/{n}.gif", "/abs/{n}.png", "http://cdn.example/{n}.png", "//cdn.example/{n}.png", "{n}.png?v=1", "i/{n}.svg#frag", "{n}.png?a=b&c=d#top", "./{n}.png", "../../up/{n}.png", "#blur{n}", "?v={n}", "#{n}", "{n}.svg#a?b"]
 EDGE_MEDIA = ["all", "all", None, "print", "screen, tv", "print"]
 
 
